@@ -64,9 +64,20 @@ REGISTRY = {
     "C28": _e("sched", "eng_sched", "model_checking"),
     "C29": _e("sched", "eng_sched", "model_checking"),
     "C30": _e("sched", "eng_sched", "model_checking"),
+    "C22": _e("harness", "eng_text", "exploration"),
+    "C23": _e("harness", "eng_text", "exploration"),
+    "C34": _e("harness", "eng_text", "exploration"),
+    "C37": _e("harness", "eng_text", "exploration"),
+    "C40": _e("harness", "eng_text", "exploration"),
 }
 # C24 is decided by two engines: in-process input enumeration (eng_lsp) and cancellation races
 # under the controlled scheduler (eng_sched); until eng_lsp is integrated only the latter runs
 REGISTRY["C38"] = _e("harness", "eng_sync", "exploration", build_failure_hook=_c38_build_failure)
 REGISTRY["C24"] = {"ws": "sched", "pkg": "eng_sched", "bin": "eng_sched", "level": "model_checking",
                    "parts": [_e("sched", "eng_sched", "model_checking")]}
+# eng_lsp: in-process server over lsp_server::Connection::memory() (hook H4)
+REGISTRY["C14"] = _e("harness", "eng_lsp", "exploration")
+REGISTRY["C25"] = _e("harness", "eng_lsp", "exploration")
+REGISTRY["C26"] = _e("harness", "eng_lsp", "exploration")
+# C24 part (a): in-process enumeration of request sequences (invoked as `eng_lsp --prop C24`)
+REGISTRY["C24"]["parts"].append(_e("harness", "eng_lsp", "exploration"))
